@@ -57,9 +57,64 @@ pub struct Case {
     /// 2 = default().with_shuffle().with_n_splits() (the public builder API, both call orders)
     #[serde(default)]
     pub ctor: u8,
+    /// matrix back end for train_test_split: 0 = DenseMatrix, 1 = ndarray (row-major), 2 = ndarray (column-major
+    /// memory layout), 3 = nalgebra DMatrix
+    #[serde(default)]
+    pub backend: u8,
 }
 
 pub struct C16;
+
+type SplitIds = (Vec<usize>, Vec<usize>, Vec<usize>, Vec<usize>);
+
+/// train_test_split on any matrix back end: ids of (x_train, x_test, y_train, y_test), every row checked intact
+fn split_generic<T: RealNumber, M: smartcore::linalg::Matrix<T>>(x: &M, y: &M::RowVector, ts: f32, shuffle: bool) -> Result<SplitIds, String> {
+    use smartcore::linalg::BaseVector;
+    let ids_m = |m: &M| -> Result<Vec<usize>, String> {
+        let (r, c) = m.shape();
+        let mut out = Vec::with_capacity(r);
+        for i in 0..r {
+            let idf = f(m.get(i, 0));
+            if idf < 0.0 || idf.fract() != 0.0 {
+                return Err(format!("row {} has id cell {}", i, idf));
+            }
+            let id = idf as usize;
+            for j in 1..c {
+                if f(m.get(i, j)) != cell(id, j) {
+                    return Err(format!("row {} (id {}) column {} holds {} instead of {}", i, id, j, f(m.get(i, j)), cell(id, j)));
+                }
+            }
+            out.push(id);
+        }
+        Ok(out)
+    };
+    let ids_v = |v: &M::RowVector| -> Result<Vec<usize>, String> {
+        (0..v.len()).map(|i| g_inv(f(v.get(i))).ok_or_else(|| format!("target {} holds {} (not a target of any row)", i, f(v.get(i))))).collect()
+    };
+    let (xtr, xte, ytr, yte) = train_test_split(x, y, ts, shuffle);
+    if xtr.shape().1 != x.shape().1 || xte.shape().1 != x.shape().1 {
+        return Err(format!("parts have {} / {} columns, the input has {}", xtr.shape().1, xte.shape().1, x.shape().1));
+    }
+    Ok((ids_m(&xtr)?, ids_m(&xte)?, ids_v(&ytr)?, ids_v(&yte)?))
+}
+
+/// the same identity-carrying workload on the other matrix back ends the crate ships
+fn split_on_backend(backend: u8, single: bool, n: usize, p: usize, ts: f32, shuffle: bool) -> Result<SplitIds, String> {
+    use nalgebra::{DMatrix, RowDVector};
+    use ndarray::{Array1, Array2, ShapeBuilder};
+    macro_rules! go {
+        ($t:ty) => {{
+            let c = |i: usize, j: usize| cell(i, j) as $t;
+            match backend {
+                1 => split_generic::<$t, Array2<$t>>(&Array2::from_shape_fn((n, p), |(i, j)| c(i, j)), &Array1::from_shape_fn(n, |i| g(i) as $t), ts, shuffle),
+                2 => split_generic::<$t, Array2<$t>>(&Array2::from_shape_fn((n, p).f(), |(i, j)| c(i, j)), &Array1::from_shape_fn(n, |i| g(i) as $t), ts, shuffle),
+                _ => split_generic::<$t, DMatrix<$t>>(&DMatrix::from_fn(n, p, |i, j| c(i, j)), &RowDVector::from_fn(n, |_, i| g(i) as $t), ts, shuffle),
+            }
+        }};
+    }
+    if single { go!(f32) } else { go!(f64) }
+}
+
 
 fn g(i: usize) -> f64 {
     3.0 * i as f64 + 0.25
@@ -433,6 +488,7 @@ fn forced_small() -> &'static Small {
                             f32m: pi % 3 == 1,
                             custom_folds: None,
                             ctor: (pi % 3) as u8,
+                            backend: 0,
                         });
                     }
                 }
@@ -452,6 +508,7 @@ fn forced_small() -> &'static Small {
                         f32m: false,
                         custom_folds: None,
                         ctor: 0,
+                        backend: ((pi as usize + nt) % 4) as u8,
                     });
                 }
             }
@@ -655,15 +712,19 @@ impl C16 {
                 let n_test = ((n as f32) * ts) as usize;
                 let _ = f32m; // the element type is chosen by the dispatcher in run()
                 let res = guarded(|| -> Result<(Vec<usize>, Vec<usize>, Vec<usize>, Vec<usize>), String> {
+                    if case.backend != 0 {
+                        return split_on_backend(case.backend, *f32m, n, case.p, ts, case.shuffle);
+                    }
                     let (xtr, xte, ytr, yte) = train_test_split(&x, &y, ts, case.shuffle);
                     Ok((ids_of(&xtr)?, ids_of(&xte)?, ids_of_y(&ytr)?, ids_of_y(&yte)?))
                 });
+                rep.count(match case.backend { 0 => "steps.split-dense", 1 => "steps.split-ndarray-row-major", 2 => "steps.split-ndarray-column-major", _ => "steps.split-nalgebra" }, 1);
                 match res {
                     Err(msg) => rep.fail("panic", "train-test-split", format!("train_test_split(n={}, test_size={}) panicked: {}", n, ts, msg)),
-                    Ok(Err(e)) => rep.fail("row-corrupt", "train-test-split", format!("train_test_split(n={}, test_size={}): {}", n, ts, e)),
+                    Ok(Err(e)) => rep.fail("row-corrupt", "train-test-split", format!("train_test_split(n={}, test_size={}, backend={}): {}", n, ts, ["DenseMatrix", "ndarray", "ndarray(column-major)", "nalgebra"][(case.backend % 4) as usize], e)),
                     Ok(Ok((xtr, xte, ytr, yte))) => {
                         d.usizes(&xtr).usizes(&xte).usizes(&ytr).usizes(&yte);
-                        let ctx = format!("train_test_split(n={}, test_size={}, shuffle={}, f32={})", n, ts, case.shuffle, f32m);
+                        let ctx = format!("train_test_split(n={}, test_size={}, shuffle={}, f32={}, backend={})", n, ts, case.shuffle, f32m, ["DenseMatrix", "ndarray", "ndarray(column-major)", "nalgebra"][(case.backend % 4) as usize]);
                         if xtr != ytr || xte != yte {
                             rep.fail("xy-misaligned", "train-test-split", format!("{}: x rows {:?}/{:?} came with targets of rows {:?}/{:?}", ctx, clip(&xtr), clip(&xte), clip(&ytr), clip(&yte)));
                         }
@@ -997,11 +1058,12 @@ impl Property for C16 {
         let mut r = Xo::fork(seed, "workload");
         let tape_seed = Xo::fork(seed, "schedule").u64();
         let big = index % 5 == 3; // every fifth run of a shuffled batch: n up to 300
+        let bk = Xo::fork(seed, "backend").below(4) as u8; // matrix back end of the train_test_split runs
         match batch {
             "noshuffle-exhaustive" => {
                 let (n, k) = noshuffle_pairs()[(index / 3) as usize];
                 let op = [Op::KFold, Op::CrossValPredict, Op::CrossValidate][(index % 3) as usize].clone();
-                Case { op, n, k, p: 1 + (index % 3) as usize, shuffle: false, fail_at: None, tape: TapeSpec::prng(tape_seed), kind: "noshuffle".into(), f32m: (n + k) % 4 == 0, custom_folds: None, ctor: ((n * 3 + k) % 3) as u8 }
+                Case { op, n, k, p: 1 + (index % 3) as usize, shuffle: false, fail_at: None, tape: TapeSpec::prng(tape_seed), kind: "noshuffle".into(), f32m: (n + k) % 4 == 0, custom_folds: None, ctor: ((n * 3 + k) % 3) as u8, backend: 0 }
             }
             "split-noshuffle" => {
                 let f32m = index % 2 == 1;
@@ -1012,7 +1074,7 @@ impl Property for C16 {
                 while ((n as f32) * ts) as usize == 0 {
                     n += 7;
                 }
-                Case { op: Op::Split { test_size: ts, f32m }, n, k: 2, p: 1 + (index % 4) as usize, shuffle: false, fail_at: None, tape: TapeSpec::prng(tape_seed), kind: "noshuffle".into(), f32m: false, custom_folds: None, ctor: 0 }
+                Case { op: Op::Split { test_size: ts, f32m }, n, k: 2, p: 1 + (index % 4) as usize, shuffle: false, fail_at: None, tape: TapeSpec::prng(tape_seed), kind: "noshuffle".into(), f32m: false, custom_folds: None, ctor: 0, backend: bk }
             }
             "forced-perm-exhaustive" => forced_small().cases[index as usize].clone(),
             "split-boundary" => {
@@ -1030,25 +1092,25 @@ impl Property for C16 {
                 while ((n2 as f32) * ts) as usize == 0 {
                     n2 += 1; // precondition of the property: floor(n * test_size) >= 1
                 }
-                Case { op: Op::Split { test_size: ts, f32m: index % 2 == 1 }, n: n2, k: 2, p: 1 + (index % 3) as usize, shuffle: index % 4 < 2, fail_at: None, tape: TapeSpec::prng(tape_seed), kind: "prng".into(), f32m: false, custom_folds: None, ctor: 0 }
+                Case { op: Op::Split { test_size: ts, f32m: index % 2 == 1 }, n: n2, k: 2, p: 1 + (index % 3) as usize, shuffle: index % 4 < 2, fail_at: None, tape: TapeSpec::prng(tape_seed), kind: "prng".into(), f32m: false, custom_folds: None, ctor: 0, backend: bk }
             }
             "split-huge" => {
                 let n = if index % 3 == 2 { (1usize << 25) + r.usize_in(1, 64) } else { (1usize << 24) + r.usize_in(1, 64) };
                 let ts = *r.pick(&[0.75f32, 0.3, 0.1, 0.9, 0.5, 0.33333334]);
-                Case { op: Op::Split { test_size: ts, f32m: false }, n, k: 2, p: 1, shuffle: false, fail_at: None, tape: TapeSpec::prng(tape_seed), kind: "noshuffle".into(), f32m: false, custom_folds: None, ctor: 0 }
+                Case { op: Op::Split { test_size: ts, f32m: false }, n, k: 2, p: 1, shuffle: false, fail_at: None, tape: TapeSpec::prng(tape_seed), kind: "noshuffle".into(), f32m: false, custom_folds: None, ctor: 0, backend: 0 }
             }
             "kfold-many-folds" => {
                 let k = *r.pick(&[65_537usize, 65_536, 65_538, 70_001]);
                 let k = if index == 0 { 65_537 } else { k };
                 let n = k + *r.pick(&[0usize, 0, 1, 5]);
-                Case { op: Op::KFoldHead { folds: 300 }, n, k, p: 1, shuffle: false, fail_at: None, tape: TapeSpec::prng(tape_seed), kind: "noshuffle".into(), f32m: false, custom_folds: None, ctor: (index % 3) as u8 }
+                Case { op: Op::KFoldHead { folds: 300 }, n, k, p: 1, shuffle: false, fail_at: None, tape: TapeSpec::prng(tape_seed), kind: "noshuffle".into(), f32m: false, custom_folds: None, ctor: (index % 3) as u8, backend: 0 }
             }
             "split-large" => {
                 // train_test_split has no upper bound on n in the property: a few thousand rows, shuffled and not
                 let n = r.usize_in(1000, 20000);
                 let ts = if r.chance(0.5) { *r.pick(&TEST_SIZES) } else { r.range(0.0005, 1.0) as f32 };
                 let ts = if ((n as f32) * ts) as usize == 0 { 0.5 } else { ts };
-                Case { op: Op::Split { test_size: ts, f32m: false }, n, k: 2, p: r.usize_in(1, 3), shuffle: r.chance(0.6), fail_at: None, tape: TapeSpec::prng(tape_seed), kind: "prng".into(), f32m: false, custom_folds: None, ctor: 0 }
+                Case { op: Op::Split { test_size: ts, f32m: false }, n, k: 2, p: r.usize_in(1, 3), shuffle: r.chance(0.6), fail_at: None, tape: TapeSpec::prng(tape_seed), kind: "prng".into(), f32m: false, custom_folds: None, ctor: 0, backend: bk }
             }
             _ => {
                 let hi = if big { 300 } else { 64 };
@@ -1073,7 +1135,10 @@ impl Property for C16 {
                     5..=7 => Op::CrossValPredict,
                     _ => Op::CrossValidate,
                 };
-                let mut c = Case { op, n, k, p, shuffle: true, fail_at: None, tape: TapeSpec::prng(tape_seed), kind: "prng".into(), f32m: r.chance(0.25), custom_folds: None, ctor: r.below(3) as u8 };
+                let mut c = Case { op, n, k, p, shuffle: true, fail_at: None, tape: TapeSpec::prng(tape_seed), kind: "prng".into(), f32m: r.chance(0.25), custom_folds: None, ctor: r.below(3) as u8, backend: 0 };
+                if matches!(c.op, Op::Split { .. }) {
+                    c.backend = bk;
+                }
                 match batch {
                     "prng-shuffle" => {}
                     "extreme-shuffle" => {
